@@ -224,10 +224,12 @@ type RunOpts struct {
 	CrossCheck bool
 	Trace      bool
 	CollectFns bool
-	Preempt    bool
+	Preempt    int
 	SymMapOrder bool
 	FailAtEnd   bool
 	ReplayChoices bool
+	DeadlockViolation bool
+	PreemptBudget int
 }
 
 // Worker owns a solver process and a term builder.
@@ -295,6 +297,10 @@ func (w *Worker) Run(o RunOpts) (out PathOutcome) {
 	}
 	m.initSched()
 	m.sc.preempt = o.Preempt
+	m.sc.budget = o.PreemptBudget
+	if m.sc.budget == 0 {
+		m.sc.budget = 2
+	}
 	i := &interpreter{
 		prog:    e.Prog,
 		globals: make(map[*ssa.Global]*value),
@@ -339,6 +345,10 @@ func (w *Worker) Run(o RunOpts) (out PathOutcome) {
 		}
 		switch p := r.(type) {
 		case pathAbort:
+			if p.kind == "blocked" && o.DeadlockViolation {
+				w.panicViolationID(m, "deadlock", p.msg, finish)
+				return
+			}
 			finish(p.kind, p.msg)
 			return
 		case wouldBlockPanic:
@@ -412,6 +422,10 @@ func toStringSafe(v value) (s string) {
 }
 
 func (w *Worker) panicViolation(m *machine, msg string, finish func(string, string)) {
+	w.panicViolationID(m, "panic", msg, finish)
+}
+
+func (w *Worker) panicViolationID(m *machine, id, msg string, finish func(string, string)) {
 	// an un-recovered guest panic reaching the harness is a violation "panic"
 	var model map[string]uint64
 	if !m.concrete {
@@ -422,8 +436,8 @@ func (w *Worker) panicViolation(m *machine, msg string, finish func(string, stri
 		}
 		model = mod
 	}
-	m.viol = &Violation{AssertID: "panic", Msg: msg, Tape: m.tapeFromModel(model)}
-	finish("violation", "panic: "+msg)
+	m.viol = &Violation{AssertID: id, Msg: msg, Tape: m.tapeFromModel(model)}
+	finish("violation", id+": "+msg)
 }
 
 // runInit executes a package initialiser without descending into the
